@@ -276,3 +276,122 @@ Fixpoint run_from (rp : bool) (own : N) (t : table) (ops : list op) : table * li
   end.
 Definition run (own : N) (ops : list op) : table := fst (run_from true own init ops).
 Definition outs (own : N) (ops : list op) : list out := snd (run_from true own init ops).
+
+(* ====================================================================================================
+   PeerManager (lbry/dht/peer.py): the three dictionaries add_peer consults, keyed by (address, udp_port),
+   and the clock.  Times are the integer values the virtual clock takes; a dictionary is a list with the
+   newest binding first.  Python truthiness matters: a stored time 0 counts as "never".
+   ==================================================================================================== *)
+Definition akey := (N * N)%type.
+Definition akey_eqb (a b : akey) : bool := (fst a =? fst b) && (snd a =? snd b).
+
+Fixpoint lookup {V : Type} (k : akey) (m : list (akey * V)) : option V :=
+  match m with
+  | [] => None
+  | (k', v) :: r => if akey_eqb k k' then Some v else lookup k r
+  end.
+
+Record pm := mkPM {
+  pm_fail : list (akey * (option N * option N));     (* _rpc_failures: (previous, most recent) *)
+  pm_replied : list (akey * N);                      (* _last_replied *)
+  pm_requested : list (akey * N)                     (* _last_requested *)
+}.
+Definition pm_init : pm := mkPM [] [] [].
+
+Definition report_failure (m : pm) (k : akey) (now : N) : pm :=
+  let prev := match lookup k (pm_fail m) with Some (_, p) => p | None => None end in
+  mkPM ((k, (prev, Some now)) :: pm_fail m) (pm_replied m) (pm_requested m).
+Definition report_last_replied (m : pm) (k : akey) (now : N) : pm :=
+  mkPM (pm_fail m) ((k, now) :: pm_replied m) (pm_requested m).
+Definition report_last_requested (m : pm) (k : akey) (now : N) : pm :=
+  mkPM (pm_fail m) (pm_replied m) ((k, now) :: pm_requested m).
+
+Definition truthy (o : option N) : bool := match o with Some v => negb (v =? 0) | None => false end.
+Definition tval (o : option N) : Z := match o with Some v => Z.of_N v | None => 0%Z end.
+
+Inductive tri := GTrue | GFalse | GNone.
+Definition CHECK_REFRESH_INTERVAL : Z := 720.
+
+(* contact_triple_is_good for a contact that has a node id *)
+Definition triple_is_good (m : pm) (now : N) (k : akey) : tri :=
+  let delay := (Z.of_N now - CHECK_REFRESH_INTERVAL)%Z in
+  let (pf, mf) := match lookup k (pm_fail m) with Some x => x | None => (None, None) end in
+  let lreq := lookup k (pm_requested m) in
+  let lrep := lookup k (pm_replied m) in
+  if truthy mf && truthy lrep then
+    if (delay <? tval lrep)%Z && (tval mf <? tval lrep)%Z then GTrue
+    else if (tval mf <? tval lrep)%Z then GNone
+    else GFalse
+  else if truthy pf && truthy mf && (delay <? tval mf)%Z then GFalse
+  else if truthy lrep && (delay <? tval lrep)%Z then GTrue
+  else if truthy lreq && (delay <? tval lreq)%Z then GNone
+  else GNone.
+
+(* get_last_replied against the clock, as add_peer reads it *)
+Definition lr_of (m : pm) (now : N) (k : akey) : lr_state :=
+  match lookup k (pm_replied m) with
+  | None => Stale
+  | Some r => if r =? 0 then Stale
+              else if r + 60 <? now then Stale
+              else if now <? r + 60 then Fresh
+              else Edge
+  end.
+
+Definition env_of_pm (m : pm) (now : N) (pr : peer -> bool) : env :=
+  mkEnv (fun q => match triple_is_good m now (paddr q, pport q) with GTrue => true | _ => false end)
+        (fun q => lr_of m now (paddr q, pport q))
+        pr.
+
+(* ---------- routing table + peer manager + clock ---------- *)
+Record sys := mkSys { s_tab : table; s_pm : pm; s_now : N }.
+Definition sys_init : sys := mkSys init pm_init 0.
+
+Inductive sop :=
+| STick (dt : N)
+| SReplied (k : akey)
+| SFailure (k : akey)
+| SRequested (k : akey)
+| SAdd (p : peer) (pr : peer -> bool)
+| SAddNoId
+| SRemove (p : peer)
+| SRemoveNoId.
+
+(* the table operation a system operation amounts to in state s (None: it does not touch the table) *)
+Definition table_op (s : sys) (o : sop) : option op :=
+  match o with
+  | SAdd p pr => Some (Add p (env_of_pm (s_pm s) (s_now s) pr))
+  | SAddNoId => Some AddNoId
+  | SRemove p => Some (Remove p)
+  | SRemoveNoId => Some RemoveNoId
+  | _ => None
+  end.
+
+Definition sys_step (rp : bool) (own : N) (s : sys) (o : sop) : sys * option out :=
+  match table_op s o with
+  | Some to => let (t', x) := step rp own (s_tab s) to in (mkSys t' (s_pm s) (s_now s), Some x)
+  | None =>
+      match o with
+      | STick dt => (mkSys (s_tab s) (s_pm s) (s_now s + dt), None)
+      | SReplied k => (mkSys (s_tab s) (report_last_replied (s_pm s) k (s_now s)) (s_now s), None)
+      | SFailure k => (mkSys (s_tab s) (report_failure (s_pm s) k (s_now s)) (s_now s), None)
+      | SRequested k => (mkSys (s_tab s) (report_last_requested (s_pm s) k (s_now s)) (s_now s), None)
+      | _ => (s, None)
+      end
+  end.
+
+Fixpoint sys_run_from (rp : bool) (own : N) (s : sys) (ops : list sop) : sys :=
+  match ops with
+  | [] => s
+  | o :: r => sys_run_from rp own (fst (sys_step rp own s o)) r
+  end.
+Definition sys_run (own : N) (ops : list sop) : sys := sys_run_from true own sys_init ops.
+
+(* the table history a system history amounts to *)
+Fixpoint compile (own : N) (s : sys) (ops : list sop) : list op :=
+  match ops with
+  | [] => []
+  | o :: r => match table_op s o with
+              | Some to => to :: compile own (fst (sys_step true own s o)) r
+              | None => compile own (fst (sys_step true own s o)) r
+              end
+  end.
